@@ -622,3 +622,504 @@ Proof.
   unfold kegress_k. destruct (egress_loop_spec fuel k) as [_ H].
   destruct (egress_loop fuel k) as [k1 o]. exact H.
 Qed.
+
+(* ======================================================================== *)
+(* The binding index describes exactly the live sockets (every reachable state) *)
+(* ======================================================================== *)
+Definition sock_wf (k : kern) : Prop :=
+  NoDup (map fst (k_socks k)) /\
+  Forall (fun fs => fst fs < k_nextfd k) (k_socks k) /\
+  binds_wf (k_binds k) /\
+  (forall key fd, In fd (find_by_bind k key) <-> exists s, get k fd = Some s /\ s_bound s = Some key) /\
+  cursor_ok k.
+
+Lemma get_sock_in l fd s : NoDup (map fst l) -> (get_sock l fd = Some s <-> In (fd, s) l).
+Proof.
+  induction l as [|[f x] l IH]; cbn; [intros _; split; [discriminate|intros []]|].
+  intros Hn. inversion Hn as [|? ? Hx Hl]; subst. destruct (f =? fd) eqn:E.
+  - apply N.eqb_eq in E. subst f. split.
+    + intros [= ->]. now left.
+    + intros [H|H]; [congruence|]. exfalso. apply Hx. apply in_map_iff. exists (fd, s). auto.
+  - rewrite IH by exact Hl. split; [tauto|]. intros [H|H]; [|exact H].
+    inversion H; subst. rewrite N.eqb_refl in E. discriminate.
+Qed.
+
+Lemma get_none_fresh k fd : Forall (fun fs => fst fs < k_nextfd k) (k_socks k) -> k_nextfd k <= fd -> get k fd = None.
+Proof.
+  unfold get. intros H Hle. induction (k_socks k) as [|[f s] l IH]; cbn; [reflexivity|].
+  inversion H as [|? ? H1 H2]; subst. cbn in H1.
+  destruct (f =? fd) eqn:E; [apply N.eqb_eq in E; lia|]. now apply IH.
+Qed.
+
+Lemma kern0_wf addrs : sock_wf (kern0 addrs).
+Proof.
+  unfold sock_wf, kern0; cbn. split; [constructor|]. split; [constructor|].
+  split; [split; constructor|]. split.
+  - intros key fd. unfold find_by_bind, get; cbn. split; [intros []|intros (s & H & _); discriminate].
+  - split; [apply N.le_refl|apply eph_range].
+Qed.
+
+(* updates that keep s_bound *)
+Lemma wf_upd k fd f : (forall s, s_bound (f s) = s_bound s) -> sock_wf k -> sock_wf (upd k fd f).
+Proof.
+  intros Hf (H1 & H2 & H3 & H4 & H5). unfold sock_wf.
+  assert (Em : map fst (k_socks (upd k fd f)) = map fst (k_socks k)).
+  { unfold upd; cbn. rewrite map_map. apply map_ext. intros [x s]; cbn. destruct (x =? fd); reflexivity. }
+  split; [now rewrite Em|]. split.
+  - unfold upd; cbn. apply Forall_forall. intros [x s] Hin. apply in_map_iff in Hin as ([y t] & E & Hin).
+    rewrite Forall_forall in H2. specialize (H2 _ Hin). cbn in *. destruct (y =? fd); inversion E; subst; exact H2.
+  - split; [exact H3|]. split; [|exact H5].
+    intros key fd'. change (find_by_bind (upd k fd f) key) with (find_by_bind k key). rewrite H4, get_upd.
+    destruct (fd' =? fd); [|reflexivity]. split.
+    + intros (s & G & B). exists (f s). rewrite G, Hf. auto.
+    + intros (s & G & B). destruct (get k fd') as [s0|]; [|discriminate]. cbn in G. inversion G; subst.
+      exists s0. rewrite Hf in B. auto.
+Qed.
+
+(* changes outside sockets / bindings / cursor *)
+Lemma wf_same k k' :
+  k_socks k' = k_socks k -> k_nextfd k' = k_nextfd k -> k_binds k' = k_binds k -> k_cursor k' = k_cursor k ->
+  sock_wf k -> sock_wf k'.
+Proof.
+  intros E1 E2 E3 E4 (H1 & H2 & H3 & H4 & H5). unfold sock_wf, get, find_by_bind, cursor_ok in *.
+  rewrite E1, E2, E3, E4. auto.
+Qed.
+
+Lemma wf_set_cursor k c : eph_lo <= c -> c <= eph_hi -> sock_wf k -> sock_wf (set_cursor k c).
+Proof.
+  intros C1 C2 (H1 & H2 & H3 & H4 & _). unfold sock_wf.
+  split; [exact H1|]. split; [exact H2|]. split; [exact H3|]. split; [exact H4|]. split; assumption.
+Qed.
+
+Lemma Forall_filter' {A} (Q : A -> Prop) f l : Forall Q l -> Forall Q (filter f l).
+Proof. rewrite !Forall_forall. intros H x Hx. apply filter_In in Hx. apply H. tauto. Qed.
+
+Lemma wf_remove k fd : sock_wf k -> sock_wf (remove k fd).
+Proof.
+  intros (H1 & H2 & [H3 H3'] & H4 & H5). unfold sock_wf.
+  split; [cbn [remove k_socks]; now apply NoDup_map_filter|]. split.
+  - cbn [remove k_socks k_nextfd]. now apply Forall_filter'.
+  - split; [cbn [remove k_binds]; now apply removed_binds_wf|]. split; [|exact H5].
+    intros key fd'. rewrite remove_find_by_bind by exact H3. unfold drop_fd. rewrite filter_In, H4, remove_get.
+    destruct (fd' =? fd) eqn:E; cbn.
+    + split; [intros [_ Hx]; discriminate|intros (s & Hx & _); discriminate].
+    + tauto.
+Qed.
+
+Lemma find_binds_add l key fd key' :
+  find_binds (add_binding l key fd) key' =
+    if bkey_eqb key key' then find_binds l key' ++ [fd] else find_binds l key'.
+Proof.
+  induction l as [|[k0 fds] l IH]; cbn.
+  - destruct (bkey_eqb key key'); reflexivity.
+  - destruct (bkey_eqb k0 key) eqn:E1; cbn.
+    + apply bkey_eqb_eq in E1. subst k0. destruct (bkey_eqb key key'); reflexivity.
+    + destruct (bkey_eqb k0 key') eqn:E2; [|exact IH].
+      destruct (bkey_eqb key key') eqn:E3; [|reflexivity].
+      apply bkey_eqb_eq in E2, E3. subst. rewrite bkey_eqb_refl in E1. discriminate.
+Qed.
+
+Lemma add_binding_keys l key fd :
+  map fst (add_binding l key fd) = if existsb (fun kb => bkey_eqb (fst kb) key) l then map fst l else map fst l ++ [key].
+Proof.
+  induction l as [|[k0 fds] l IH]; cbn; [reflexivity|].
+  destruct (bkey_eqb k0 key) eqn:E; cbn; [reflexivity|]. rewrite IH.
+  destruct (existsb (fun kb => bkey_eqb (fst kb) key) l); reflexivity.
+Qed.
+
+Lemma add_binding_wf l key fd : binds_wf l -> binds_wf (add_binding l key fd).
+Proof.
+  intros [Hn Hne]. split.
+  - rewrite add_binding_keys. destruct (existsb (fun kb => bkey_eqb (fst kb) key) l) eqn:E; [exact Hn|].
+    apply NoDup_app_iff. repeat split; auto; [repeat constructor; intros []|].
+    intros x Hx [<-|[]]. assert (existsb (fun kb => bkey_eqb (fst kb) key) l = true); [|congruence].
+    apply in_map_iff in Hx as ([k0 f] & E0 & Hin). apply existsb_exists. exists (k0, f). split; auto.
+    cbn in *. subst. apply bkey_eqb_refl.
+  - induction l as [|[k0 fds] l IH]; cbn; [repeat constructor; discriminate|].
+    inversion Hne as [|? ? A B]; subst. inversion Hn; subst.
+    destruct (bkey_eqb k0 key); constructor; auto; cbn in *. destruct fds; discriminate.
+Qed.
+
+Lemma get_sock_app_fresh l fd s0 x : ~ In fd (map fst l) ->
+  get_sock (l ++ [(fd, s0)]) x = if x =? fd then Some s0 else get_sock l x.
+Proof.
+  induction l as [|[y t] l IH]; cbn; intros Hf.
+  - rewrite N.eqb_sym. reflexivity.
+  - destruct (y =? x) eqn:E.
+    + apply N.eqb_eq in E. subst y. destruct (x =? fd) eqn:E2; [|reflexivity].
+      apply N.eqb_eq in E2. subst x. exfalso. apply Hf. now left.
+    + apply IH. intros Hin. apply Hf. now right.
+Qed.
+
+(* a fresh socket bound to key: the three steps of bind / auto_bind / accept_syn *)
+Lemma wf_new k s0 key (g : sock -> sock) :
+  s_bound s0 = None -> (forall s, s_bound (g s) = Some key) ->
+  sock_wf k ->
+  sock_wf (upd (insert_binding (fst (insert_sock k s0)) key (k_nextfd k)) (k_nextfd k) g).
+Proof.
+  intros Hb Hg (H1 & H2 & H3 & H4 & H5). set (fd := k_nextfd k).
+  assert (Hfresh : ~ In fd (map fst (k_socks k))).
+  { intros Hin. apply in_map_iff in Hin as ([x s] & E & Hin). rewrite Forall_forall in H2.
+    specialize (H2 _ Hin). cbn in *. subst x. unfold fd in H2. lia. }
+  assert (G0 : get k fd = None) by (apply get_none_fresh; [exact H2|apply N.le_refl]).
+  unfold sock_wf.
+  assert (Em : map fst (k_socks (upd (insert_binding (fst (insert_sock k s0)) key fd) fd g)) = map fst (k_socks k) ++ [fd]).
+  { unfold upd, insert_binding, insert_sock; cbn. rewrite map_map, map_app. cbn. fold fd.
+    rewrite N.eqb_refl. cbn. f_equal. apply map_ext.
+    intros [x s]; cbn. destruct (x =? fd); reflexivity. }
+  split; [rewrite Em; apply NoDup_app_iff; repeat split; auto; [repeat constructor; intros []|intros x Hx [<-|[]]; tauto]|].
+  split.
+  - unfold upd, insert_binding, insert_sock; cbn. apply Forall_forall. intros [x s] Hin.
+    apply in_map_iff in Hin as ([y t] & E & Hin). apply in_app_or in Hin as [Hin|[Hin|[]]].
+    + rewrite Forall_forall in H2. specialize (H2 _ Hin). cbn in *.
+      destruct (y =? fd); inversion E; subst; unfold fd; lia.
+    + inversion Hin; subst. cbn in E. rewrite N.eqb_refl in E. inversion E; subst. cbn. unfold fd. lia.
+  - split; [apply add_binding_wf, H3|]. split; [|exact H5].
+    intros key' fd'.
+    change (find_by_bind (upd (insert_binding (fst (insert_sock k s0)) key fd) fd g) key')
+      with (find_binds (add_binding (k_binds k) key fd) key').
+    rewrite find_binds_add, get_upd.
+    assert (Gi : forall x, get (insert_binding (fst (insert_sock k s0)) key fd) x = if x =? fd then Some s0 else get k x).
+    { intros x. unfold get, insert_binding, insert_sock; cbn. fold fd. now apply get_sock_app_fresh. }
+    rewrite Gi. destruct (fd' =? fd) eqn:E.
+    + apply N.eqb_eq in E. subst fd'. cbn. split.
+      * intros Hin. exists (g s0). split; [reflexivity|]. rewrite Hg.
+        destruct (bkey_eqb key key') eqn:Ek; [apply bkey_eqb_eq in Ek; now subst|].
+        fold (find_by_bind k key') in Hin. apply H4 in Hin as (s & Gs & _). congruence.
+      * intros (s & [= <-] & B). rewrite Hg in B. inversion B; subst. rewrite bkey_eqb_refl.
+        apply in_or_app. right. now left.
+    + fold (find_by_bind k key'). rewrite <- H4. destruct (bkey_eqb key key'); [|reflexivity].
+      rewrite in_app_iff. cbn. apply N.eqb_neq in E. intuition congruence.
+Qed.
+
+(* ---- every kernel operation keeps the table well-formed -------------------------------------- *)
+Lemma wf_emit k s d f t : sock_wf k -> sock_wf (emit k s d f t).
+Proof. apply wf_same; reflexivity. Qed.
+Lemma wf_set_out k o : sock_wf k -> sock_wf (set_out k o).
+Proof. apply wf_same; reflexivity. Qed.
+Lemma wf_insert_conn k l r fd : sock_wf k -> sock_wf (insert_conn k l r fd).
+Proof. apply wf_same; reflexivity. Qed.
+Lemma wf_set_bad k : sock_wf k -> sock_wf (set_bad k).
+Proof. apply wf_same; reflexivity. Qed.
+Lemma wf_set_tcb k fd f : sock_wf k -> sock_wf (set_tcb k fd f).
+Proof. apply wf_upd. intros s. destruct (s_tcb s); reflexivity. Qed.
+
+Lemma wf_insert_unbound k s0 : s_bound s0 = None -> sock_wf k -> sock_wf (fst (insert_sock k s0)).
+Proof.
+  intros Hb (H1 & H2 & H3 & H4 & H5). set (fd := k_nextfd k).
+  assert (Hfresh : ~ In fd (map fst (k_socks k))).
+  { intros Hin. apply in_map_iff in Hin as ([x s] & E & Hin). rewrite Forall_forall in H2.
+    specialize (H2 _ Hin). cbn in *. subst x. unfold fd in H2. lia. }
+  unfold sock_wf, insert_sock; cbn. fold fd. rewrite map_app. cbn.
+  split; [apply NoDup_app_iff; repeat split; auto; [repeat constructor; intros []|intros x Hx [<-|[]]; tauto]|].
+  split.
+  - apply Forall_app; split; [|repeat constructor; cbn; lia].
+    eapply Forall_impl; [|exact H2]. cbn. intros; lia.
+  - split; [exact H3|]. split; [|exact H5]. intros key fd'.
+    fold (find_by_bind k key). rewrite H4.
+    rewrite get_sock_app_fresh by exact Hfresh. fold (get k fd'). destruct (fd' =? fd) eqn:E; [|reflexivity].
+    apply N.eqb_eq in E. subst fd'. split.
+    + intros (s & G & _). rewrite (get_none_fresh k fd H2 (N.le_refl _)) in G. discriminate.
+    + intros (s & [= <-] & B). congruence.
+Qed.
+
+(* keep the 16384-step fuel of the allocator folded from here on *)
+Opaque allocate.
+
+Lemma wf_allocate_port k d t : sock_wf k -> sock_wf (snd (allocate_port k d t)).
+Proof.
+  intros H. unfold allocate_port. destruct H as (H1 & H2 & H3 & H4 & [C1 C2]).
+  pose proof (allocate_cursor eph_lo eph_hi (k_cursor k) (in_use_port k d t) (conj C1 C2)) as Hc.
+  destruct (allocate eph_lo eph_hi (k_cursor k) (in_use_port k d t)) as [r c]. cbn in *.
+  apply wf_set_cursor; [apply Hc|apply Hc|].
+  split; [exact H1|]. split; [exact H2|]. split; [exact H3|]. split; [exact H4|]. split; assumption.
+Qed.
+
+Lemma wf_bind k a port t : sock_wf k -> sock_wf (fst (bind k a port t)).
+Proof.
+  intros H. unfold bind. destruct (negb (is_unspec a) && negb (is_local_k k a)); [exact H|].
+  assert (H1 : sock_wf (snd (if port =? 0 then allocate_port k (dom_of a) t else (Some port, k)))).
+  { destruct (port =? 0); [now apply wf_allocate_port|exact H]. }
+  destruct (if port =? 0 then allocate_port k (dom_of a) t else (Some port, k)) as [po k1]. cbn [snd] in H1.
+  destruct po as [p|]; [|exact H1].
+  destruct (existsb (fun kb => conflicts (fst kb) (mkkey (dom_of a) t a p)) (k_binds k1)); [exact H1|].
+  cbn [fst]. apply (wf_new k1 (sock0 (dom_of a) t) (mkkey (dom_of a) t a p)); auto.
+Qed.
+
+Lemma wf_listen k fd : sock_wf k -> sock_wf (listen k fd).
+Proof. apply wf_upd. reflexivity. Qed.
+
+Lemma wf_push_to_listener k c l : sock_wf k -> sock_wf (push_to_listener k c l).
+Proof.
+  intros H. unfold push_to_listener. destruct (find_listener k l); [|exact H].
+  apply wf_upd; [|exact H]. intros s. destruct (s_listen s) as [[b r]|]; reflexivity.
+Qed.
+
+Lemma wf_accept_syn k l a b : sock_wf k -> sock_wf (accept_syn k l a b).
+Proof.
+  intros H. unfold accept_syn. destruct (get k l) as [ls|]; [|exact H].
+  destruct (s_listen ls) as [[bl rd]|]; [|exact H].
+  destruct (bl <=? count_children k l a + N.of_nat (length rd)); [exact H|].
+  apply wf_emit, wf_insert_conn.
+  apply (wf_new k (sock0 (s_dom ls) (s_ty ls)) (mkkey (s_dom ls) (s_ty ls) (fst a) (snd a))); auto.
+Qed.
+
+Lemma wf_conn_deliver k fd a b p : sock_wf k -> sock_wf (conn_deliver k fd a b p).
+Proof.
+  intros H. unfold conn_deliver. destruct (has (p_flags p) F_RST).
+  - apply wf_upd; [|exact H]. intros s. destruct (s_tcb s) as [t|]; [|reflexivity].
+    destruct (tstate_eqb (t_state t) SynReceived); reflexivity.
+  - destruct (get k fd) as [s|]; [|exact H]. destruct (s_tcb s) as [t|]; [|exact H].
+    destruct (t_state t).
+    + destruct (has (p_flags p) F_SYN && has (p_flags p) F_ACK); [|exact H]. now apply wf_emit, wf_set_tcb.
+    + destruct (has (p_flags p) F_ACK && negb (has (p_flags p) F_SYN)); [|exact H].
+      now apply wf_push_to_listener, wf_set_tcb.
+    + destruct (negb (p_id p =? 0)); [now apply wf_emit, wf_set_tcb|].
+      destruct (has (p_flags p) F_SYN); [now apply wf_emit|exact H].
+    + exact H.
+Qed.
+
+Lemma wf_kdeliver k p : sock_wf k -> sock_wf (kdeliver k p).
+Proof.
+  intros H. unfold kdeliver. destruct (p_proto p =? 0).
+  - unfold udp_deliver. destruct (udp_target k p) as [fd|]; [|exact H].
+    destruct (get k fd) as [s|]; [|exact H]. destruct (peer_ok s (p_src p, p_sport p)); [|exact H].
+    now apply wf_upd.
+  - unfold tcp_deliver. destruct (tcp_demux k p).
+    + now apply wf_conn_deliver.
+    + now apply wf_accept_syn.
+    + unfold emit_rst. now apply wf_emit.
+    + exact H.
+Qed.
+
+Lemma wf_fold_left {A} (f : kern -> A -> kern) l : (forall k x, sock_wf k -> sock_wf (f k x)) ->
+  forall k, sock_wf k -> sock_wf (fold_left f l k).
+Proof. intros Hf. induction l as [|x l IH]; cbn; auto. Qed.
+
+Lemma wf_rst_child k c : sock_wf k -> sock_wf (rst_child k c).
+Proof.
+  intros H. unfold rst_child. destruct (get k c) as [s|]; [|exact H].
+  destruct (s_tcb s); [now apply wf_remove, wf_emit|now apply wf_remove].
+Qed.
+
+Lemma wf_close k fd : sock_wf k -> sock_wf (close k fd).
+Proof.
+  intros H. unfold close. destruct (get k fd) as [s|]; [|exact H].
+  destruct (s_ty s).
+  - destruct (s_tcb s) as [t|].
+    + destruct (negb (t_reset t) && tstate_eqb (t_state t) Established).
+      * destruct (nonempty (t_recv t)); [now apply wf_remove, wf_emit|now apply wf_set_bad].
+      * now apply wf_remove.
+    + destruct (s_listen s) as [[b r]|]; [|now apply wf_remove].
+      unfold close_listener. apply wf_remove. apply wf_fold_left; [apply wf_rst_child|exact H].
+  - destruct (s_tcb s), (s_listen s) as [[? ?]|]; now apply wf_remove.
+Qed.
+
+Lemma wf_tcp_connect_first k peer : sock_wf k -> sock_wf (fst (tcp_connect_first k peer)).
+Proof.
+  intros H. unfold tcp_connect_first.
+  set (d := dom_of (fst peer)). set (s0 := sock0 d Stream).
+  assert (H1 : sock_wf (fst (insert_sock k s0))) by (now apply wf_insert_unbound).
+  change (insert_sock k s0) with (fst (insert_sock k s0), k_nextfd k). cbv iota beta.
+  set (k1 := fst (insert_sock k s0)) in *.
+  destruct (if is_loopback (fst peer) then Some (loopback_like (fst peer)) else first_same_family (k_addrs k1) (fst peer)) as [lip|];
+    [|cbn [fst]; now apply wf_remove].
+  pose proof (wf_allocate_port k1 d Stream H1) as H2.
+  destruct (allocate_port k1 d Stream) as [po k2] eqn:Ea. cbn [snd] in H2.
+  destruct po as [port|]; [|cbn [fst]; now apply wf_remove].
+  cbn [fst]. apply wf_emit, wf_insert_conn. apply wf_upd; [reflexivity|].
+  (* k2 is k1 with another cursor: rebuild it as a fresh insert into (k with that cursor) *)
+  assert (Ek2 : k2 = set_cursor k1 (k_cursor k2)).
+  { unfold allocate_port in Ea. destruct (allocate eph_lo eph_hi (k_cursor k1) (in_use_port k1 d Stream)) as [r c].
+    inversion Ea; subst. reflexivity. }
+  assert (Hc : sock_wf (set_cursor k (k_cursor k2))).
+  { destruct H2 as (_ & _ & _ & _ & [C1 C2]). apply wf_set_cursor; auto. }
+  pose proof (wf_new (set_cursor k (k_cursor k2)) s0 (mkkey d Stream lip port) (fun s => sk_bound s (Some (mkkey d Stream lip port)))
+                     eq_refl (fun _ => eq_refl) Hc) as Hn.
+  eapply wf_same; [| | | |exact Hn]; rewrite Ek2; reflexivity.
+Qed.
+
+Lemma wf_tcp_connect_poll k fd : sock_wf k -> sock_wf (fst (tcp_connect_poll k fd)).
+Proof.
+  intros H. unfold tcp_connect_poll. destruct (get k fd) as [s|]; [|exact H].
+  destruct (s_tcb s) as [t|]; [|exact H]. destruct (t_state t); cbn; auto. now apply wf_remove.
+Qed.
+
+Lemma wf_accept k fd : sock_wf k -> sock_wf (fst (accept k fd)).
+Proof.
+  intros H. unfold accept. destruct (get k fd) as [s|]; [|exact H].
+  destruct (s_listen s) as [[b [|c r]]|]; try exact H. cbn. now apply wf_upd.
+Qed.
+
+Lemma wf_udp_send_to k fd dst tag : sock_wf k -> sock_wf (fst (udp_send_to k fd dst tag)).
+Proof.
+  intros H. unfold udp_send_to. destruct (get k fd) as [s|]; [|exact H].
+  destruct (negb (dom_eqb (s_dom s) (dom_of (fst dst)))); [exact H|].
+  destruct (is_bcast (fst dst)); [exact H|]. destruct (s_bound s); [|exact H]. cbn. now apply wf_set_out.
+Qed.
+
+Lemma wf_udp_send k fd tag : sock_wf k -> sock_wf (fst (udp_send k fd tag)).
+Proof.
+  intros H. unfold udp_send. destruct (get k fd) as [s|]; [|exact H].
+  destruct (s_peer s); [now apply wf_udp_send_to|exact H].
+Qed.
+
+Lemma wf_udp_connect k fd peer : sock_wf k -> sock_wf (fst (udp_connect k fd peer)).
+Proof.
+  intros H. unfold udp_connect. destruct (get k fd) as [s|]; [|exact H].
+  destruct (negb (dom_eqb (s_dom s) (dom_of (fst peer)))); [exact H|]. cbn. now apply wf_upd.
+Qed.
+
+Lemma wf_egress_pass dr : forall k, sock_wf k -> sock_wf (fst (egress_pass k dr)).
+Proof.
+  induction dr as [|p r IH]; intros k H; cbn [egress_pass]; [exact H|].
+  destruct (is_local_k k (p_dst p)); [now apply IH, wf_kdeliver|].
+  specialize (IH k H). destruct (egress_pass k r) as [k' o]. exact IH.
+Qed.
+
+Lemma wf_egress_loop fuel : forall k, sock_wf k -> sock_wf (fst (egress_loop fuel k)).
+Proof.
+  induction fuel as [|f IH]; intros k H; cbn [egress_loop]; [exact H|].
+  destruct (k_out k) as [|p0 l0]; [exact H|].
+  pose proof (wf_egress_pass (p0 :: l0) (set_out k []) (wf_set_out k [] H)) as H1.
+  destruct (egress_pass (set_out k []) (p0 :: l0)) as [k1 o]. cbn [fst] in H1.
+  specialize (IH k1 H1). destruct (egress_loop f k1) as [k2 o']. exact IH.
+Qed.
+
+Lemma wf_kegress fuel k : sock_wf k -> sock_wf (fst (kegress_k fuel k)).
+Proof.
+  intros H. unfold kegress_k. pose proof (wf_egress_loop fuel k H) as H1.
+  destruct (egress_loop fuel k) as [k1 o]. cbn [fst] in *.
+  unfold reap_closed. apply wf_fold_left; [intros; now apply wf_remove|exact H1].
+Qed.
+
+(* ---- the whole net ------------------------------------------------------------------------------ *)
+From TV.NetPure Require Import SockRun.
+
+Definition net_wf (n : net) : Prop := Forall sock_wf (n_hosts n).
+
+Lemma Forall_upd_nth {A} (Q : A -> Prop) l i f :
+  Forall Q l -> (forall x, Q x -> Q (f x)) -> Forall Q (upd_nth l i f).
+Proof.
+  intros H Hf. revert i. induction H as [|x l Hx Hl IH]; intros i; destruct i; cbn; constructor; auto.
+Qed.
+
+Lemma wf_kern_at n h : net_wf n -> sock_wf (kern_at n h).
+Proof.
+  intros H. unfold kern_at. destruct (nth_in_or_default h (n_hosts n) (kern0 [])) as [Hin | E].
+  - unfold net_wf in H. rewrite Forall_forall in H. now apply H.
+  - rewrite E. apply kern0_wf.
+Qed.
+
+Lemma wf_with_host n h k : net_wf n -> sock_wf k -> net_wf (with_host n h k).
+Proof. intros H Hk. unfold net_wf, with_host; cbn. now apply Forall_upd_nth. Qed.
+
+Lemma wf_fdeliver hs p : Forall sock_wf hs -> Forall sock_wf (fdeliver hs p).
+Proof.
+  intros H. unfold fdeliver. destruct (route hs (p_dst p)); [|exact H].
+  apply Forall_upd_nth; [exact H|]. intros; now apply wf_kdeliver.
+Qed.
+
+Lemma wf_deliver_all ps : forall hs, Forall sock_wf hs -> Forall sock_wf (deliver_all hs ps).
+Proof. induction ps as [|p r IH]; intros hs H; cbn; [exact H|]. now apply IH, wf_fdeliver. Qed.
+
+Lemma wf_fegress_all f hs : Forall sock_wf hs -> Forall sock_wf (fst (fegress_all f hs)).
+Proof.
+  induction 1 as [|k r Hk Hr IH]; cbn [fegress_all]; [constructor|].
+  pose proof (wf_kegress f k Hk) as H1. destruct (kegress_k f k) as [k' o].
+  destruct (fegress_all f r) as [r' o']. cbn in *. constructor; auto.
+Qed.
+
+Lemma wf_pump rounds : forall hs, Forall sock_wf hs -> Forall sock_wf (fst (pump rounds hs)).
+Proof.
+  induction rounds as [|r IH]; intros hs H; cbn [pump]; [exact H|].
+  pose proof (wf_fegress_all fuel hs H) as H1. destruct (fegress_all fuel hs) as [hs1 out]. cbn [fst] in H1.
+  destruct out as [|p0 l0]; [exact H1|].
+  specialize (IH (deliver_all hs1 (p0 :: l0)) (wf_deliver_all _ _ H1)).
+  destruct (pump r (deliver_all hs1 (p0 :: l0))) as [hs2 more]. exact IH.
+Qed.
+
+Lemma wf_drain k i kind fd : sock_wf k -> sock_wf (fst (drain k i kind fd)).
+Proof.
+  intros H. unfold drain. destruct (get k fd) as [s|]; [|exact H].
+  destruct kind; cbn; auto.
+  - now apply wf_upd.
+  - destruct (s_tcb s) as [t|]; [|exact H]. destruct (t_reset t); cbn; [exact H|now apply wf_set_tcb].
+Qed.
+
+Lemma wf_drain_all hs : forall n i, net_wf n -> net_wf (fst (drain_all n hs i)).
+Proof.
+  induction hs as [|x r IH]; intros n i H; cbn [drain_all]; [exact H|].
+  destruct x as [[[kind h] fd]|]; [|now apply IH].
+  pose proof (wf_drain (kern_at n h) i kind fd (wf_kern_at n h H)) as H1.
+  destruct (drain (kern_at n h) i kind fd) as [k o]. cbn [fst] in H1.
+  specialize (IH (with_host n h k) (i + 1) (wf_with_host n h k H H1)).
+  destruct (drain_all (with_host n h k) r (i + 1)) as [n' os]. exact IH.
+Qed.
+
+Definition ev_ok (e : nev) : Prop :=
+  match e with NSetCursor _ c => eph_lo <= c /\ c <= eph_hi | _ => True end.
+
+Lemma net_wf_handles n hs : net_wf n -> net_wf (mknet (n_hosts n) hs).
+Proof. exact (fun H => H). Qed.
+
+Lemma wf_nstep n e : ev_ok e -> net_wf n -> net_wf (fst (nstep n e)).
+Proof.
+  intros He H. destruct e; cbn [nstep].
+  - pose proof (wf_bind (kern_at n h) a port Dgram (wf_kern_at n h H)) as H1.
+    destruct (bind (kern_at n h) a port Dgram) as [k [err|[fd p]]]; cbn in *; now apply wf_with_host.
+  - pose proof (wf_bind (kern_at n h) a port Stream (wf_kern_at n h H)) as H1.
+    destruct (bind (kern_at n h) a port Stream) as [k [err|[fd p]]]; cbn in *; apply wf_with_host; auto.
+    now apply wf_listen.
+  - pose proof (wf_tcp_connect_first (kern_at n h) peer (wf_kern_at n h H)) as H1.
+    destruct (tcp_connect_first (kern_at n h) peer) as [k r]. destruct r; cbn in *; now apply wf_with_host.
+  - destruct (handle n hd) as [[[[] h] fd]|]; try exact H.
+    pose proof (wf_tcp_connect_poll (kern_at n h) fd (wf_kern_at n h H)) as H1.
+    destruct (tcp_connect_poll (kern_at n h) fd) as [k r]. destruct r; cbn in *; try exact H; now apply wf_with_host.
+  - destruct (handle n hd) as [[[[] h] fd]|]; try exact H.
+    pose proof (wf_accept (kern_at n h) fd (wf_kern_at n h H)) as H1.
+    destruct (accept (kern_at n h) fd) as [k [[c pr]|]]; cbn in *; [now apply wf_with_host|exact H].
+  - destruct (handle n hd) as [[[kd h] fd]|]; [|exact H]. cbn. apply wf_with_host; [exact H|].
+    apply wf_close, wf_kern_at, H.
+  - destruct (handle n hd) as [[[[] h] fd]|]; try exact H.
+    pose proof (wf_udp_connect (kern_at n h) fd peer (wf_kern_at n h H)) as H1.
+    destruct (udp_connect (kern_at n h) fd peer) as [k r]. cbn in *. now apply wf_with_host.
+  - destruct (handle n hd) as [[[[] h] fd]|]; try exact H.
+    pose proof (wf_udp_send_to (kern_at n h) fd dst tag (wf_kern_at n h H)) as H1.
+    destruct (udp_send_to (kern_at n h) fd dst tag) as [k r]. cbn in *. now apply wf_with_host.
+  - destruct (handle n hd) as [[[[] h] fd]|]; try exact H.
+    pose proof (wf_udp_send (kern_at n h) fd tag (wf_kern_at n h H)) as H1.
+    destruct (udp_send (kern_at n h) fd tag) as [k r]. cbn in *. now apply wf_with_host.
+  - cbn. now apply wf_fdeliver.
+  - cbn. apply wf_with_host; [exact H|]. destruct He. apply wf_set_cursor; auto. now apply wf_kern_at.
+  - pose proof (wf_fegress_all fuel (n_hosts n) H) as H1. destruct (fegress_all fuel (n_hosts n)). exact H1.
+  - pose proof (wf_pump 20 (n_hosts n) H) as H1. destruct (pump 20 (n_hosts n)). exact H1.
+  - pose proof (wf_drain_all (n_handles n) n 0 H) as H1. destruct (drain_all n (n_handles n) 0). exact H1.
+Qed.
+
+Fixpoint nfold (n : net) (es : list nev) : net :=
+  match es with [] => n | e :: r => nfold (fst (nstep n e)) r end.
+
+Lemma wf_reachable addrs es : Forall ev_ok es -> net_wf (nfold (net0 addrs) es).
+Proof.
+  intros He. assert (H0 : net_wf (net0 addrs)).
+  { unfold net_wf, net0; cbn. apply Forall_forall. intros k Hk. apply in_map_iff in Hk as (a & <- & _). apply kern0_wf. }
+  revert H0. generalize (net0 addrs). induction He as [|e r He Hr IH]; intros n H; cbn; [exact H|].
+  apply IH. now apply wf_nstep.
+Qed.
+
+(* in a well-formed table, conflicting with the index = conflicting with a live socket *)
+Lemma conflicts_live k key : sock_wf k ->
+  (Conflicts k key <-> exists fd s key', get k fd = Some s /\ s_bound s = Some key' /\ Overlap key' key).
+Proof.
+  intros (H1 & H2 & [H3 H3'] & H4 & H5). split.
+  - intros (key' & Hin & Ho). unfold keys in Hin. apply in_map_iff in Hin as ([k0 fds] & E & Hin). cbn in E. subst k0.
+    rewrite Forall_forall in H3'. pose proof (H3' _ Hin) as Hne. cbn in Hne.
+    destruct fds as [|fd fds]; [congruence|].
+    assert (Hf : In fd (find_by_bind k key')).
+    { unfold find_by_bind. rewrite (find_binds_unique _ _ _ H3 Hin). now left. }
+    apply H4 in Hf as (s & G & B). exists fd, s, key'. auto.
+  - intros (fd & s & key' & G & B & Ho). exists key'. split; [|exact Ho].
+    assert (Hf : In fd (find_by_bind k key')) by (apply H4; eauto).
+    apply find_binds_nonempty_key. unfold find_by_bind in Hf. intros E. rewrite E in Hf. destruct Hf.
+Qed.
